@@ -26,7 +26,9 @@ package json
 //@              && (!inUEscape(m) ==> len(s.returnToStep.vals) == 0)))
 //@   ensures normal ==> findsAppended(s, old(len(s.finds)), dEmits(fn, c, s.allowTrailingNonSpaceCharacters, stkTop(s), stkBelow(s), stkDepth(s)))
 //@   ensures normal ==> (forall i :: 0 <= i && i < old(len(s.finds)) ==> s.finds[i] == old(s.finds[i]))
-//@   ensures panics ==> typeis(pv, errors.DocumentError) && unbox(pv, errors.DocumentError).code == 301 && unbox(pv, errors.DocumentError).index == s.index - 1 && unbox(pv, errors.DocumentError).hasIndex
+//@   ensures s.finds.$arr == old(s.finds.$arr) || fresh(s.finds)
+//@   ensures s.returnToStep.vals.$arr == old(s.returnToStep.vals.$arr) || fresh(s.returnToStep.vals)
+//@   ensures panics ==> typeis(pv, errors.DocumentError) && unbox(pv, errors.DocumentError).code == 301 && unbox(pv, errors.DocumentError).index == s.index - 1 && unbox(pv, errors.DocumentError).hasIndex && unbox(pv, errors.DocumentError).file == s.file
 
 //@ func (*scanner).found(lexType)
 //@   props C05 C06
@@ -42,6 +44,68 @@ package json
 //@   requires scannerShape(s) && 1 <= s.index
 //@   nopanic
 //@   ensures result.code == 301 && result.index == s.index - 1 && result.hasIndex && result.file == s.file && !result.prepared
+
+//@ func (*scanner).shiftFound()
+//@   props C05 C06
+//@   requires s != nil && len(s.finds) >= 1
+//@   nopanic
+//@   modifies s.finds, s.finds[*]
+//@   ensures result == old(s.finds[0]) && len(s.finds) == old(len(s.finds)) - 1
+//@   ensures forall i :: 0 <= i && i < len(s.finds) ==> s.finds[i] == old(s.finds[i+1])
+
+//@ func isNonScalarPair(pairType, lexType)
+//@   props C06
+//@   pure
+//@   ensures result == ((lexType == lexeme.ObjectEnd || lexType == lexeme.ArrayEnd) && pairType == partner(lexType))
+
+//@ func isScalarPair(pairType, lexType)
+//@   props C06
+//@   pure
+//@   ensures result == ((lexType == lexeme.LiteralEnd || lexType == lexeme.ArrayItemEnd || lexType == lexeme.ObjectKeyEnd || lexType == lexeme.ObjectValueEnd) && pairType == partner(lexType))
+
+//@ func (*scanner).processFoundLexemeClosingTag(lexType, i)
+//@   props C05 C06
+//@   requires s != nil && s.stack != nil && stkDepth(s) >= 1 && isCloseKind(lexType) && partner(lexType) == stkTop(s)
+//@   requires i >= 1 || lexType == lexeme.ObjectEnd || lexType == lexeme.ArrayEnd
+//@   nopanic
+//@   modifies s.stack.vals
+//@   ensures result.lexEventType == lexType && result.file == s.file
+//@   ensures result.begin == old(s.stack.vals[len(s.stack.vals)-1].begin) && result.end == spanEnd(lexType, i)
+//@   ensures len(s.stack.vals) == old(len(s.stack.vals)) - 1 && s.stack.vals.$arr == old(s.stack.vals.$arr) && s.stack.vals.$off == old(s.stack.vals.$off)
+
+//@ func (*scanner).processingFoundLexeme(lexType)
+//@   props C05 C06
+//@   requires evtOK(s, lexType)
+//@   nopanic
+//@   modifies s.stack.vals, s.stack.vals[*]
+//@   ensures wfStack(s)
+//@   ensures result.lexEventType == lexType && result.file == s.file
+//@   ensures (isOpenKind(lexType) || lexType == lexeme.EndTop) ==> result.begin == s.index - 1 && result.end == s.index - 1
+//@   ensures isCloseKind(lexType) ==> result.begin == old(s.stack.vals[len(s.stack.vals)-1].begin) && result.end == spanEnd(lexType, s.index - 1)
+//@   ensures isCloseKind(lexType) ==> stkDepth(s) == old(stkDepth(s)) - 1 && (forall k :: 0 <= k && k < stkDepth(s) ==> s.stack.vals[k] == old(s.stack.vals[k]))
+//@   ensures isOpenKind(lexType) ==> stkDepth(s) == old(stkDepth(s)) + 1 && s.stack.vals[stkDepth(s)-1] == result && (forall k :: 0 <= k && k < stkDepth(s) - 1 ==> s.stack.vals[k] == old(s.stack.vals[k]))
+//@   ensures lexType == lexeme.EndTop ==> stkDepth(s) == old(stkDepth(s)) && (forall k :: 0 <= k && k < stkDepth(s) ==> s.stack.vals[k] == old(s.stack.vals[k]))
+//@   ensures old(scanInv(s, lexType)) ==> scanInv(s, NOEV)
+
+//@ func (*scanner).Next()
+//@   props C05 C06 C07 C17
+//@   requires s != nil && s.index < 18446744073709551615
+//@   requires nextOK(s) && allocated(s.finds) && allocated(s.returnToStep.vals) && allocated(s.stack.vals)
+//@   maypanic
+//@   modifies s.index, s.step, s.finds, s.finds[*], s.unfinishedLiteral, s.returnToStep.vals, s.returnToStep.vals[*], s.stack.vals, s.stack.vals[*]
+//@   ensures normal ==> nextOK(s)
+//@   ensures normal && !result1 ==> stkDepth(s) == 0 && s.index >= s.dataSize && len(s.finds) == 0
+//@   ensures normal && result1 ==> (isOpenKind(result0.lexEventType) || isCloseKind(result0.lexEventType) || result0.lexEventType == lexeme.EndTop)
+//@   ensures normal && result1 ==> result0.begin <= result0.end && result0.end < s.dataSize && result0.file == s.file
+//@   ensures old(s.index == s.dataSize && len(s.finds) == 0) ==> (panics <==> (old(stkDepth(s)) >= 1 && !(old(stkTop(s)) == lexeme.LiteralBegin && !unfRef(old(s.step)))))
+//@   ensures panics ==> typeis(pv, errors.DocumentError) && unbox(pv, errors.DocumentError).hasIndex && unbox(pv, errors.DocumentError).index < s.dataSize && unbox(pv, errors.DocumentError).file == s.file
+//@   ensures panics ==> (unbox(pv, errors.DocumentError).code == 301 || (unbox(pv, errors.DocumentError).code == 303 && unbox(pv, errors.DocumentError).index == s.dataSize - 1))
+//@   loop 0 invariant nextOK(s) && len(s.finds) == 0
+//@   loop 0 invariant s.index >= old(s.index) && (s.index == old(s.index) ==> s.step == old(s.step) && s.unfinishedLiteral == old(s.unfinishedLiteral)) && (s.index > s.dataSize ==> s.index == old(s.index))
+//@   loop 0 invariant s.finds.$arr == old(s.finds.$arr) || s.finds.$arr > old(alloc)
+//@   loop 0 invariant s.returnToStep.vals.$arr == old(s.returnToStep.vals.$arr) || s.returnToStep.vals.$arr > old(alloc)
+//@   loop 0 invariant s.stack.vals == old(s.stack.vals) && (forall k :: 0 <= k && k < stkDepth(s) ==> s.stack.vals[k] == old(s.stack.vals[k]))
+//@   loop 0 decreases s.dataSize - s.index
 
 //@ func stateFoundRootValue(s, c)
 //@   props C05 C06
